@@ -1,9 +1,375 @@
 import BronVerif.Drive.Common
-/-! Driver handlers for C18. -/
-namespace BronVerif.Drive.C18
-open BronVerif BronVerif.Drive
+import BronVerif.Model.Curves
+import BronVerif.Model.Commit
+import BronVerif.Model.Hash.Blake2b
+/-!
+Driver handlers for C18 (commitments).
 
-def handle (op : String) (_args : List String) (_rhs : String) : Verdict :=
-  .unsupported ("C18 op " ++ op)
+Lines (`sch` ∈ `ped eg int pai`, `par` = curve name or `-`, `key` = comma list):
+
+    commit  sch par key m w                       => c
+    open    sch par key c m w                     => accept | reject
+    step    sch par key kind c1;m1;w1 extra       => c;m;w      kind ∈ op inv scalar rerand shift
+    tcommit sch par tkey m w                      => c          trapdoor commit = public commit
+    opens   ped par g,lam m0 w0 dc m w            => accept | reject   Open (commit m0 w0 + dc•g) m w
+    equiv   sch par tkey m w m'                   => w'         opens the same commitment to m'
+    pedkey  curve g h                             => ok | reject   NewCommitmentKeyUnchecked
+    xkey    sch par key                           => ok         key extracted from a transcript is valid
+    hcommit key m w                               => c          hashcom
+    hopen   k0 m0 w0 c0 k c m w                   => accept | reject
+
+Every verdict is computed with the definitions of `Model/Commit.lean` instantiated with the runtime
+curve arithmetic of `Model/Curves.lean` resp. modular arithmetic on `Nat`.
+-/
+namespace BronVerif.Drive.C18
+open BronVerif BronVerif.Drive BronVerif.Commit
+
+/-! ### runtime instances -/
+
+/-- a point of the runtime curve `C` with additive notation -/
+structure CPt (C : Curves.Params) where
+  pt : Curves.Pt
+deriving DecidableEq
+
+instance {C : Curves.Params} : Add (CPt C) := ⟨fun a b => ⟨Curves.add C a.pt b.pt⟩⟩
+instance {C : Curves.Params} : Neg (CPt C) := ⟨fun a => ⟨Curves.neg C a.pt⟩⟩
+instance {C : Curves.Params} {n : Nat} : SMul (Fp n) (CPt C) := ⟨fun k a => ⟨Curves.smul C k.val a.pt⟩⟩
+
+/-- a scheme with its line-protocol syntax -/
+structure Sch where
+  {M W C S : Type}
+  hom : Hom M W C S
+  [decC : DecidableEq C]
+  parseM : String → Option M
+  parseW : String → Option W
+  parseC : String → Option C
+  parseS : String → Option S
+  showM : M → String
+  showW : W → String
+  showC : C → String
+
+def parsePt (C : Curves.Params) (s : String) : Option (CPt C) := (Curves.parse? C s).map (⟨·⟩)
+def showPt {C : Curves.Params} (P : CPt C) : String := Curves.render C P.pt
+def parseFp (n : Nat) [NeZero n] (s : String) : Option (Fp n) :=
+  (hexToNat? s).bind fun v => if v < n then some (Fp.ofNat n v) else none
+
+def parsePair (C : Curves.Params) (s : String) : Option (CPt C × CPt C) :=
+  match s.splitOn "+" with
+  | [a, b] => do let x ← parsePt C a; let y ← parsePt C b; some (x, y)
+  | _ => none
+
+def parseZU (N : Nat) (s : String) : Option (ZU N) :=
+  (hexToNat? s).bind fun v => if v < N then some ⟨v⟩ else none
+def parseBelow (N : Nat) (s : String) : Option Nat :=
+  (hexToNat? s).bind fun v => if v < N then some v else none
+
+def pedSch (C : Curves.Params) (n : Nat) [NeZero n] (g h : CPt C) : Sch where
+  hom := pedersen (S := Fp n) g h
+  parseM := parseFp n
+  parseW := parseFp n
+  parseC := parsePt C
+  parseS := parseFp n
+  showM := Fp.toHex
+  showW := Fp.toHex
+  showC := showPt
+
+def egSch (C : Curves.Params) (n : Nat) [NeZero n] (g h : CPt C) : Sch where
+  hom := elgamal (S := Fp n) ⟨Curves.zero C⟩ g h
+  parseM := parsePt C
+  parseW := parseFp n
+  parseC := parsePair C
+  parseS := parseFp n
+  showM := showPt
+  showW := Fp.toHex
+  showC := fun c => showPt c.1 ++ "+" ++ showPt c.2
+
+def intSch (N : Nat) (s t : ZU N) : Sch where
+  hom := ringPedersen s t
+  parseM := hexToInt?
+  parseW := hexToInt?
+  parseC := parseZU N
+  parseS := hexToInt?
+  showM := intToHex
+  showW := intToHex
+  showC := fun c => natToHex c.v
+
+def paiSch (N : Nat) : Sch where
+  hom := paillier N
+  parseM := parseBelow N
+  parseW := parseBelow N
+  parseC := parseBelow (N * N)
+  parseS := hexToInt?
+  showM := natToHex
+  showW := natToHex
+  showC := natToHex
+
+/-- build the scheme named on a line -/
+def mkSch (sch par key : String) : Option Sch :=
+  match sch, splitComma key with
+  | "ped", [gs, hs] =>
+    match Curves.byName? par with
+    | none => none
+    | some C =>
+      match parsePt C gs, parsePt C hs with
+      | some g, some h => withPrime C.n none fun n => some (pedSch C n g h)
+      | _, _ => none
+  | "eg", [gs, hs] =>
+    match Curves.byName? par with
+    | none => none
+    | some C =>
+      match parsePt C gs, parsePt C hs with
+      | some g, some h => withPrime C.n none fun n => some (egSch C n g h)
+      | _, _ => none
+  | "int", [ns, ss, ts] =>
+    match hexToNat? ns with
+    | none => none
+    | some N =>
+      match parseZU N ss, parseZU N ts with
+      | some s, some t => some (intSch N s t)
+      | _, _ => none
+  | "pai", [ns] =>
+    match hexToNat? ns with
+    | some N => if N < 2 then none else some (paiSch N)
+    | none => none
+  | _, _ => none
+
+def triple? (k : Sch) (s : String) : Option (k.C × k.M × k.W) :=
+  match s.splitOn ";" with
+  | [c, m, w] => do some (← k.parseC c, ← k.parseM m, ← k.parseW w)
+  | _ => none
+
+def triples? (k : Sch) (s : String) : Option (List (k.C × k.M × k.W)) :=
+  let parts := s.splitOn ";"
+  if parts.length % 3 ≠ 0 then none else
+  (chunk parts 3).mapM fun
+    | [c, m, w] => do some (← k.parseC c, ← k.parseM m, ← k.parseW w)
+    | _ => none
+
+def showTriple (k : Sch) (c : k.C) (m : k.M) (w : k.W) : String :=
+  k.showC c ++ ";" ++ k.showM m ++ ";" ++ k.showW w
+
+def acc (b : Bool) : String := if b then "accept" else "reject"
+
+/-- one homomorphic step on an opening triple -/
+def step (k : Sch) (kind : String) (x : k.C × k.M × k.W) (extra : String) : Option (k.C × k.M × k.W) :=
+  let (c, m, w) := x
+  match kind with
+  | "op" => do
+    let ys ← triples? k extra
+    if ys.isEmpty then none else
+    some (ys.foldl (fun (a : k.C × k.M × k.W) y => (k.hom.cOp a.1 y.1, k.hom.mOp a.2.1 y.2.1, k.hom.wOp a.2.2 y.2.2)) (c, m, w))
+  | "inv" => some (k.hom.cInv c, k.hom.mInv m, k.hom.wInv w)
+  | "scalar" => do
+    let s ← k.parseS extra
+    some (k.hom.cScalar c s, k.hom.mScalar m s, k.hom.wScalar w s)
+  | "rerand" => do
+    let s ← k.parseW extra
+    some (k.hom.reRandomise c s, m, k.hom.wOp w s)
+  | "shift" => do
+    let d ← k.parseM extra
+    some (k.hom.shift c d, k.hom.mOp m d, w)
+  | _ => none
+
+def handleSch (k : Sch) (op : String) (rest : List String) (rhs : String) : Verdict :=
+  haveI := k.decC
+  match op, rest with
+  | "commit", [ms, ws] =>
+    match k.parseM ms, k.parseW ws with
+    | some m, some w => spec "commit" (k.showC (k.hom.commit m w)) rhs
+    | _, _ => .unsupported "commit args"
+  | "open", [cs, ms, ws] =>
+    match k.parseC cs, k.parseM ms, k.parseW ws with
+    | some c, some m, some w => spec "open" (acc (k.hom.open c m w)) rhs
+    | _, _, _ => .unsupported "open args"
+  | "step", [kind, xs, extra] =>
+    match triple? k xs with
+    | none => .unsupported "step triple"
+    | some x =>
+      match step k kind x extra with
+      | none => .unsupported ("step " ++ kind)
+      | some (c, m, w) =>
+        -- commitment, message and witness of the combination are exactly the model's; that the
+        -- combination opens is decided by the `open` lines that follow (and `Props.C18.*_hom`)
+        spec ("hom-" ++ kind) (showTriple k c m w) rhs
+  | _, _ => .unsupported ("C18 " ++ op)
+
+/-! ### trapdoor keys -/
+
+def handleTrapdoor (op sch par key : String) (rest : List String) (rhs : String) : Verdict :=
+  match sch, splitComma key with
+  | "ped", [gs, ls] =>
+    match Curves.byName? par with
+    | none => .unsupported "curve"
+    | some C => withPrime C.n (.unsupported "n=0") fun n =>
+      match parsePt C gs, parseFp n ls with
+      | some g, some lam =>
+        let hOf : Unit → CPt C := fun _ => lam • g
+        match op, rest with
+        | "tkey", [] => spec "trapdoor-key" (showPt (hOf ())) rhs
+        | "tcommit", [ms, ws] =>
+          match parseFp n ms, parseFp n ws with
+          | some m, some w =>
+            let viaTrapdoor := pedTrapdoorCommit g lam m w
+            let viaPublic := pedCommit g (hOf ()) m w
+            if viaTrapdoor ≠ viaPublic then .unsupported "model: trapdoor commit ≠ public commit"
+            else spec "trapdoor-commit" (showPt viaPublic) rhs
+          | _, _ => .unsupported "tcommit args"
+        | "opens", [m0s, w0s, dcs, ms, ws] =>
+          -- Open of `commit m0 w0 + dc • g` with `(m, w)` under the exported key `(g, lam • g)`,
+          -- predicted from the scalars alone (`Props.C18.ped_open_iff_scalars`)
+          match parseFp n m0s, parseFp n w0s, parseFp n dcs, parseFp n ms, parseFp n ws with
+          | some m0, some w0, some dc, some m, some w =>
+            spec "open" (acc (pedOpenScalars lam m0 w0 dc m w)) rhs
+          | _, _, _, _, _ => .unsupported "opens args"
+        | "equiv", [ms, ws, m2s] =>
+          match parseFp n ms, parseFp n ws, parseFp n m2s, parseFp n rhs with
+          | some m, some w, some m', some w' =>
+            -- the property: the SAME commitment opens to m' with the returned witness under the
+            -- exported public key (g, h)
+            let h := hOf ()
+            let c := pedCommit g h m w
+            if !(genericOpen (pedCommit g h) c m' w') then
+              .bad "equivocate" ("returned witness does not open the commitment to the new message; formula gives " ++ (pedEquivocate lam m w m').toHex)
+            else mirror (pedEquivocate lam m w m').toHex rhs
+          | _, _, _, _ => if rhs.startsWith "err" then .bad "equivocate" ("trapdoor holder could not equivocate: " ++ rhs) else .unsupported "equiv args"
+        | _, _ => .unsupported ("C18 " ++ op)
+      | _, _ => .unsupported "trapdoor key"
+  | "int", [ns, ts, ls, os] =>
+    match hexToNat? ns, hexToNat? ls, hexToNat? os with
+    | some N, some lam, some ord =>
+      match parseZU N ts with
+      | none => .unsupported "t"
+      | some t =>
+        let sOf : Unit → ZU N := fun _ => t ^ (lam : Int)
+        match op, rest with
+        | "tkey", [] => spec "trapdoor-key" (natToHex (sOf ()).v) rhs
+        | "tcommit", [ms, ws] =>
+          match hexToInt? ms, hexToInt? ws with
+          | some m, some w =>
+            -- the trapdoor path reduces the exponent modulo the group order it knows
+            let viaTrapdoor : ZU N := t ^ ((m * (lam : Int) + w) % (ord : Int))
+            let viaPublic := intCommit (sOf ()) t m w
+            if viaTrapdoor ≠ viaPublic then .unsupported "model: trapdoor commit ≠ public commit (is ord the order of t?)"
+            else spec "trapdoor-commit" (natToHex viaPublic.v) rhs
+          | _, _ => .unsupported "tcommit args"
+        | "equiv", [ms, ws, m2s] =>
+          match hexToInt? ms, hexToInt? ws, hexToInt? m2s, hexToInt? rhs with
+          | some m, some w, some m', some w' =>
+            let s := sOf ()
+            let c := intCommit s t m w
+            let bound : Int := (N : Int) * (2 : Int) ^ 80
+            if !(genericOpen (intCommit s t) c m' w') then
+              .bad "equivocate" "returned witness does not open the commitment to the new message"
+            else if (w' - intEquivocateRaw lam m w m') % (ord : Int) ≠ 0 then
+              .diff ("r+lam(m-m') mod ord = " ++ intToHex (intEquivocateRaw lam m w m' % (ord : Int)))
+            else if m ≠ m' ∧ ¬ (-bound ≤ w' ∧ w' < bound) then .diff "witness outside [-N 2^80, N 2^80)"
+            else .ok
+          | _, _, _, _ => if rhs.startsWith "err" then .bad "equivocate" ("trapdoor holder could not equivocate: " ++ rhs) else .unsupported "equiv args"
+        | _, _ => .unsupported ("C18 " ++ op)
+    | _, _, _ => .unsupported "trapdoor key"
+  | _, _ => .unsupported "trapdoor scheme"
+
+/-! ### keys -/
+
+def jacobiAux : Nat → Nat → Nat → Int → Int
+  | 0, _, _, _ => 0
+  | fuel + 1, a, n, acc =>
+    if a = 0 then (if n = 1 then acc else 0) else
+    if a % 2 = 0 then
+      jacobiAux fuel (a / 2) n (if n % 8 = 3 ∨ n % 8 = 5 then -acc else acc)
+    else
+      jacobiAux fuel (n % a) a (if a % 4 = 3 ∧ n % 4 = 3 then -acc else acc)
+
+/-- Jacobi symbol `(a / n)` for odd `n` -/
+def jacobi (a n : Nat) : Int := jacobiAux (4 * n.log2 + 8) (a % n) n 1
+
+/-- `pedkey curve g h => ok|reject` (NewCommitmentKeyUnchecked); `xkey …` keys from transcripts -/
+def handleKey (op : String) (args : List String) (rhs : String) : Verdict :=
+  match op, args with
+  | "pedkey", [par, gs, hs] =>
+    match Curves.byName? par with
+    | none => .unsupported "curve"
+    | some C =>
+      match Curves.parse? C gs, Curves.parse? C hs with
+      | some g, some h =>
+        spec "pedersen-key-validation" (if pedKeyValid (Curves.zero C) g h then "ok" else "reject") rhs
+      | _, _ => .unsupported "points"
+  | "xkey", ["ped", par, key] =>
+    match Curves.byName? par, splitComma key with
+    | some C, [gs, hs] =>
+      match Curves.parse? C gs, Curves.parse? C hs with
+      | some g, some h =>
+        if !(pedKeyValid (Curves.zero C) g h) then .bad "extracted-key" "h is the identity or equals g"
+        else if !(Curves.inSubgroup C h) then .bad "extracted-key" "h is not in the prime-order subgroup"
+        else spec "extracted-key" "ok" rhs
+      | _, _ => .unsupported "points"
+    | _, _ => .unsupported "xkey ped"
+  | "xkey", ["int", _, key] =>
+    match (splitComma key).mapM hexToNat? with
+    | some [N, s, t] =>
+      if s = t ∨ s % N = 1 ∨ t % N = 1 ∨ s = 0 ∨ t = 0 ∨ s ≥ N ∨ t ≥ N then .bad "extracted-key" "s, t must be distinct non-trivial residues"
+      else if jacobi s N ≠ 1 ∨ jacobi t N ≠ 1 then .bad "extracted-key" "s, t must have Jacobi symbol 1"
+      else if Nat.gcd (s - 1) N ≠ 1 ∨ Nat.gcd (t - 1) N ≠ 1 then .bad "extracted-key" "gcd(x-1,N) must be 1"
+      else spec "extracted-key" "ok" rhs
+    | _ => .unsupported "xkey int"
+  | _, _ => .unsupported ("C18 " ++ op)
+
+/-! ### hash commitments -/
+
+/-- The keyed hash of `hashcom` (`blake2b.New256(key)`): the BLAKE2b model with a 32-byte output.
+`some`: commitments are recomputed exactly, `commitment = BLAKE2b_key(m ‖ w)`.  (With `none` the
+handlers fall back to what follows from injectivity of the hash alone, `hashOpenPredict`.) -/
+def keyedHash? : Option (List UInt8 → List UInt8 → List UInt8) :=
+  some fun k x => (Hash.blake2b ⟨k.toArray⟩ ⟨x.toArray⟩ 32).toList
+
+def bytes? (s : String) : Option (List UInt8) := (hexToBytes? s).map (·.toList)
+
+def handleHash (op : String) (args : List String) (rhs : String) : Verdict :=
+  match op, args with
+  | "hcommit", [ks, ms, ws] =>
+    match bytes? ks, bytes? ms, bytes? ws, bytes? rhs with
+    | some k, some m, some w, some c =>
+      if k.length ≠ 32 ∨ w.length ≠ 32 then .unsupported "key/witness length"
+      else if c.length ≠ 32 then .bad "hashcom-digest" "commitment is not 32 bytes"
+      else match keyedHash? with
+        | some H => if hashCommit H k m w = c then .ok else .bad "hashcom-digest" "commitment ≠ BLAKE2b_key(m ‖ w)"
+        | none => .ok
+    | _, _, _, _ => .unsupported "hcommit args"
+  | "hopen", [k0s, m0s, w0s, c0s, ks, cs, ms, ws] =>
+    match bytes? k0s, bytes? m0s, bytes? w0s, bytes? c0s, bytes? ks, bytes? cs, bytes? ms, bytes? ws with
+    | some k0, some m0, some w0, some c0, some k, some c, some m, some w =>
+      if k0.length ≠ 32 ∨ k.length ≠ 32 ∨ w0.length ≠ 32 ∨ w.length ≠ 32 ∨ c0.length ≠ 32 ∨ c.length ≠ 32 then
+        .unsupported "lengths"
+      else match keyedHash? with
+        | some H =>
+          if hashCommit H k0 m0 w0 ≠ c0 then .bad "hashcom-digest" "c0 ≠ BLAKE2b_k0(m0 ‖ w0)"
+          else
+            let exact := hashOpen H k c m w
+            match hashOpenPredict k0 m0 w0 c0 k c m w with
+            | some b =>
+              -- a disagreement would be a collision of the keyed hash on inputs that occur
+              if b ≠ exact then .unsupported "hash model: collision on occurring inputs (HashInj fails)"
+              else spec "hashcom-open" (acc exact) rhs
+            | none => spec "hashcom-open" (acc exact) rhs
+        | none =>
+          match hashOpenPredict k0 m0 w0 c0 k c m w with
+          | some b => spec "hashcom-open" (acc b) rhs
+          | none => .unsupported "hopen: more than one component changed (needs the hash model)"
+    | _, _, _, _, _, _, _, _ => .unsupported "hopen args"
+  | _, _ => .unsupported ("C18 " ++ op)
+
+def handle (op : String) (args : List String) (rhs : String) : Verdict :=
+  match op, args with
+  | "commit", sch :: par :: key :: rest | "open", sch :: par :: key :: rest
+  | "step", sch :: par :: key :: rest =>
+    match mkSch sch par key with
+    | some k => handleSch k op rest rhs
+    | none => .unsupported "scheme/key"
+  | "tkey", sch :: par :: key :: rest | "tcommit", sch :: par :: key :: rest
+  | "opens", sch :: par :: key :: rest
+  | "equiv", sch :: par :: key :: rest => handleTrapdoor op sch par key rest rhs
+  | "pedkey", _ | "xkey", _ => handleKey op args rhs
+  | "hcommit", _ | "hopen", _ => handleHash op args rhs
+  | _, _ => .unsupported ("C18 op " ++ op)
 
 end BronVerif.Drive.C18
